@@ -19,11 +19,13 @@ DRIVERS = ["driver_aaverisk"]
 RULE = ("portfolios over the uppercase symbols of the four risk-parameter CSVs (1-3 collateral supplies, 0-2 non-collateral supplies, 0-3 debts, "
         "indices 1..3, prices log-uniform over 8 decades) in health classes no-debt / healthy / HF = 1 / HF < 1; one call per case: borrow, withdraw, "
         "change_collateral, get_max_borrow_amount (+ borrow of it, borrow(None), borrow beyond the limit), get_max_withdraw_amount (+ withdraw of it, "
-        "beyond it); amounts at the accept/reject frontier x {1-1e-3, 1-1e-9, 1, 1+1e-9, 1+1e-3}, whole balance, zero, negative, oversized; boundary "
+        "beyond it); plus SEQUENCES of 4-9 calls on one market inside one bar (borrow - mostly the same token again and again -, withdraw, change_collateral, "
+        "supply, repay with cash / collateral, figures read in between so that the next call meets warm caches), every amount aimed at the frontier of the "
+        "CURRENT state x {0.3 .. 1-2e-9, 1+2e-9 .. 1.5}; amounts at the accept/reject frontier x {1-1e-3, 1-1e-9, 1, 1+1e-9, 1+1e-3}, whole balance, zero, negative, oversized; boundary "
         "stream with exactly representable ties; bucket = (op, token role, health class, amount class, outcome/cause)")
 TRUSTED = ["theorems are for the exact rational semantics; the 35-digit Decimal rounding is reproduced bit-exactly by the driver; where rounding decides "
            "an outcome at the exact frontier (max-withdraw) it is a recorded finding, not hidden",
-           "cache coherence of the market's DictCaches is C13's subject: every case starts from freshly reset caches",
+           "cache coherence of the market's DictCaches is C13's subject; single-call cases start from freshly reset caches, sequence cases carry the caches over",
            "the state a REJECTED call leaves behind is C04's subject (only outcome and cause are compared here)",
            "the model's domain: every token of the portfolio / request has a row in the bar's market status, price series and risk table"]
 ASSUMPTIONS = ["RiskParamsSane: LTV <= LT for every token, collateral-enabled => LT > 0 (checked on the four CSVs on every run)",
@@ -401,6 +403,165 @@ def run_case(ctx: Ctx, rng, stream, reqs, forced=None):
     return out
 
 
+# ------------------------------------------------------------------------------------------------- multi-call sequences
+SEQ_F = [(F(3, 10), "0.3f"), (F(45, 100), "0.45f"), (F(6, 10), "0.6f"), (F(9, 10), "0.9f"), (1 - MARGIN * 2, "f-2e-9"), (1 + MARGIN * 2, "f+2e-9"),
+         (1 + F(1, 1000), "f+1e-3"), (F(3, 2), "1.5f")]
+
+
+def call_live(m, b, toks, acts, names, fn, warm):
+    """one call on a LIVE market: positions, wallet and the five caches are whatever the previous calls of the sequence left"""
+    rows = {n: L.row_of(m, n) for n in names}
+    n0 = len(acts)
+    obs = {"S0": L.raw(m), "W0": L.wallet_of(b), "rows": rows, "state": L.dump(m), "exc": None, "cause": None, "ret": None, "fig0": None}
+    if warm:        # a strategy looking at its figures between two calls: fills the caches the next call will meet
+        try:
+            obs["fig0"] = (L.xfrac(m.health_factor), L.xfrac(m.max_ltv), L.xfrac(m.liquidation_threshold), L.xfrac(m.ltv))
+            _ = m.borrows, m.supplies
+        except Exception:           # noqa: BLE001
+            obs["fig0"] = None
+    try:
+        obs["ret"] = fn(m, toks)
+    except Exception as e:          # noqa: BLE001
+        obs["exc"], obs["cause"] = exc_info(e)
+    obs["acts"] = acts[n0:]
+    obs["S1"] = L.raw(m)
+    obs["W1"] = L.wallet_of(b)
+    try:
+        import copy
+        c = copy.copy(m)            # HF from scratch (cold caches) so that the comparison with the model does not depend on a stale cache
+        from demeter.aave._typing import DictCache
+        for nm in ("_collaterals_amount_cache", "_supplies_amount_cache", "_supplies_cache", "_borrows_amount_cache", "_borrows_cache"):
+            setattr(c, nm, DictCache())
+        obs["hf1"] = L.xfrac(c.health_factor)
+        obs["hf1_warm"] = L.xfrac(m.health_factor)
+    except Exception:               # noqa: BLE001
+        obs["hf1"] = obs["hf1_warm"] = "?"
+    return obs
+
+
+def seq_step(rng, case, m, focus):
+    """the next call of a sequence, aimed at the accept/reject frontier of the CURRENT state"""
+    rp = L.load_rp(case.rp_path)
+    S = L.raw(m)
+    rows = {n: L.row_of(m, n) for n in case.toks}
+    E = Exact(S, rows)
+    sup_names = [n for n, _, _ in S["supplies"]]
+    deb_names = [n for n, _ in S["debts"]]
+    k = rng.random()
+    if k < 0.5 or not sup_names:
+        tok = focus if rng.random() < 0.75 else rng.choice(list(case.toks))
+        pr = F(rows[tok]["p"])
+        front = (E.weighted_ltv - E.total_debt) / pr if pr != 0 else F(1)
+        f, cls = rng.choice(SEQ_F)
+        return {"op": "borrow", "tok": tok, "amount": str(dec((front if front > 0 else F(1)) * f, 33))}, cls
+    if k < 0.68:
+        tok = rng.choice(sup_names)
+        s = [x for x in S["supplies"] if x[0] == tok][0]
+        bal = E.sup_amount(tok)
+        front = bal
+        lt = F(rows[tok]["lt"])
+        if s[2] and E.total_debt > 0 and rows[tok]["p"] != 0 and lt != 0:
+            others = E.weighted_lt - bal * F(rows[tok]["p"]) * lt
+            front = bal - max((E.total_debt - others) / lt / F(rows[tok]["p"]), F(0))
+        f, cls = rng.choice(SEQ_F)
+        return {"op": "withdraw", "tok": tok, "amount": str(dec((front if front > 0 else bal) * f, 33))}, cls
+    if k < 0.78:
+        tok = rng.choice(sup_names)
+        cur = [x for x in S["supplies"] if x[0] == tok][0][2]
+        return {"op": "change", "tok": tok, "flag": not cur}, "off" if cur else "on"
+    if k < 0.89 and deb_names:
+        tok = rng.choice(deb_names)
+        f, cls = rng.choice([(F(1, 3), "third"), (F(1, 2), "half"), (F(1), "all"), (F(11, 10), "over")])
+        wc = rng.random() < 0.4 and any(c for _, _, c in S["supplies"])
+        ct = rng.choice([n for n, _, c in S["supplies"] if c]) if wc else None
+        return {"op": "repay", "tok": tok, "amount": str(dec(E.deb_amount(tok) * f, 33)), "withColl": wc, "collTok": ct}, cls + (":coll" if wc else ":cash")
+    tok = rng.choice(sup_names + list(case.toks))
+    cur = [x for x in S["supplies"] if x[0] == tok]
+    coll = cur[0][2] if cur else bool(rp.loc[tok].usageAsCollateralEnabled)
+    return {"op": "supply", "tok": tok, "amount": str(L.rnd_dec(rng, -3, 3, 4)), "coll": coll}, "plain"
+
+
+def o_monotone(out, obs, op):
+    """supply and repay cannot lower the health factor; whatever was accepted, an account with debt that was healthy stays healthy"""
+    rows = obs["rows"]
+    E0, E1 = Exact(obs["S0"], rows), Exact(obs["S1"], rows)
+    if obs["exc"] is not None:
+        return
+    if not all(rows[n]["p"] > 0 and rows[n]["li"] > 0 and rows[n]["bi"] > 0 for n in rows):
+        return
+    dust = MINTV * sum((F(rows[n]["li"]) * F(rows[n]["p"]) * F(rows[n]["lt"]) for n in rows), F(0))
+    if op in ("supply", "repay") and E1.total_debt > 0:
+        slack = TOL + dust / E1.total_debt
+        if E0.hf is not None and E1.hf < E0.hf * (1 - slack) - slack:
+            out.append((f"{op}.lowers-hf", f"health factor fell from {float(E0.hf)} to {float(E1.hf)} by an accepted {op}"))
+    if E1.total_debt > 0 and (E0.hf is None or E0.hf >= 1) and not hf_ok(E1.hf, dust / E1.total_debt):
+        out.append((f"{op}.hf-after", f"health factor {float(E1.hf)} < 1 after an accepted {op} on an account that was healthy ({E0.hf and float(E0.hf)})"))
+    if obs.get("hf1_warm") != obs.get("hf1"):
+        out.append((f"{op}.hf-stale", f"health_factor read after the call ({obs.get('hf1_warm')}) differs from its value on cold caches ({obs.get('hf1')})"))
+
+
+def run_sequence(ctx: Ctx, rng, reqs, forced=None):
+    """several calls on ONE market inside one bar: state and caches carried over, limits checked at the frontier after each"""
+    if forced is None:
+        case, health, other = gen_portfolio(rng, rng.random() < 0.3, False)
+        if health not in ("healthy", "nodebt", "ltv-edge"):
+            case.debts = []
+            health = "nodebt"
+        for n in case.toks:
+            case.wallet[n] = "1000000"
+        focus = rng.choice(list(case.toks))
+        steps = None
+        nsteps = rng.randint(4, 9)
+    else:
+        case, steps, health = forced
+        focus = None
+        nsteps = len(steps)
+    m, b, toks, acts = L.build(case)
+    names = list(case.toks)
+    done, found = [], []
+    for i in range(nsteps):
+        if steps is None:
+            spec, cls = seq_step(rng, case, m, focus)
+            spec["warm"] = rng.random() < 0.5
+            spec["cls"] = cls
+        else:
+            spec = steps[i]
+            cls = spec.get("cls", "?")
+        done.append(spec)
+        rep = {"case": case.to_json(), "seq": list(done), "health": health, "stream": "sequence"}
+        op, tok = spec["op"], spec["tok"]
+        amount = None if spec.get("amount") is None else D(spec["amount"])
+        out = []
+        if op == "borrow":
+            obs = call_live(m, b, toks, acts, names, lambda mm, t: mm.borrow(t[tok], amount), spec["warm"])
+            o_borrow(out, obs, tok, amount)
+            reqs.append((rep, obs, {"fn": "borrow", "tok": tok, "row": obs["rows"][tok], "amount": amount}))
+        elif op == "withdraw":
+            obs = call_live(m, b, toks, acts, names, lambda mm, t: _withdraw(mm, t[tok], amount), spec["warm"])
+            o_withdraw(out, obs, tok, amount)
+            reqs.append((rep, obs, {"fn": "withdraw", "tok": tok, "amount": amount}))
+        elif op == "change":
+            obs = call_live(m, b, toks, acts, names, lambda mm, t: mm.change_collateral(t[tok], spec["flag"]), spec["warm"])
+            o_change(out, obs, tok, spec["flag"])
+            reqs.append((rep, obs, {"fn": "changeCollateral", "tok": tok, "flag": spec["flag"]}))
+        elif op == "supply":
+            obs = call_live(m, b, toks, acts, names, lambda mm, t: mm.supply(t[tok], amount, spec["coll"]), spec["warm"])
+        else:
+            ct = spec.get("collTok")
+            obs = call_live(m, b, toks, acts, names, lambda mm, t: mm.repay(t[tok], amount, spec["withColl"], None if ct is None else t[ct]), spec["warm"])
+        if obs["fig0"] is not None:
+            o_figures(out, obs)
+        o_monotone(out, obs, op)
+        nth = sum(1 for x in done if x["op"] == op and x["tok"] == tok)
+        ctx.case(f"sequence:{op}:{'same-token-x' + str(min(nth, 3))}:{'warm' if spec['warm'] else 'asleft'}:{cls}:{obs['cause'] or 'ok'}", rep)
+        for k, what in out:
+            ctx.violate(k, f"(call {i + 1} of a sequence on one market) {what}", rep)
+            found.append((k, what))
+        if found:
+            break           # the rest of the sequence would run on a state the property already excludes
+    return found
+
+
 def _withdraw(m, t, amount):
     m.withdraw(t, amount)
     return amount if amount is not None else None
@@ -449,6 +610,8 @@ def run(ctx: Ctx):
         r = ctx.rng.random()
         stream = "random" if r < 0.62 else ("boundary" if r < 0.87 else "special")
         run_case(ctx, ctx.rng, stream, reqs)
+    for i in range(ctx.scale(70, 2000)):
+        run_sequence(ctx, ctx.rng, reqs)
     ctx.impl_traces = len(reqs)
     if ctx.driver_ok:
         out = driver_json([dict(r, ctx="py", state=o["state"]) for _, o, r in reqs], exe="driver_aaverisk")
@@ -456,6 +619,8 @@ def run(ctx: Ctx):
             compare(ctx, rep, obs, req, ans)
         figs = driver_json([{"fn": "figures", "ctx": "py", "state": o["state"]} for _, o, _ in reqs[:: 3]], exe="driver_aaverisk")
         for (rep, obs, _), ans in zip(reqs[:: 3], figs):
+            if obs.get("fig0") is None:
+                continue
             hf, ml, lt, ltv = obs["fig0"]
             for k, v in (("hf", hf), ("maxLtv", ml), ("liqThreshold", lt), ("ltv", ltv)):
                 if L.model_num(ans[k]) != v:
@@ -468,6 +633,11 @@ def run(ctx: Ctx):
 def replay(ctx: Ctx, case) -> bool:
     c = Case.from_json(case["case"])
     sub = Ctx(ctx.prop, ctx.tier, ctx.seed, False)
+    if "seq" in case:
+        v = run_sequence(sub, sub.rng, [], forced=(c, case["seq"], case.get("health")))
+        for k, what in v:
+            print("  ", k, what)
+        return not v
     v = run_case(sub, sub.rng, case.get("stream", "random"), [], forced=(c, case["spec"], case.get("health"), case.get("role"), case.get("cls")))
     for k, what in v:
         print("  ", k, what)
